@@ -480,6 +480,11 @@ func makeGenbankOriginParser(length int) genbankSubparser {
 			// unknown field if the block is malformed.
 			state.Clear()
 
+			// The block length of an absurd declared length overflows.
+			if toOriginLength(length) < length {
+				return pars.NewError("sequence length too large", state.Position())
+			}
+
 			if err := state.Request(toOriginLength(length)); err != nil {
 				return pars.NewError("not enough bytes in state", state.Position())
 			}
